@@ -377,8 +377,7 @@ def _check_nan_both(ctx, tst):
 
 
 TOLERANCE_CALLS = {'isclose', 'allclose', 'approx', 'assert_allclose',
-                   'assert_almost_equal', 'around', 'round', 'round_',
-                   'rint', 'trunc', 'finfo'}
+                   'assert_almost_equal'}
 
 
 def _check_scale_free(ctx, meth):
